@@ -1,6 +1,7 @@
 import Rtcm.Model.WF
 import Rtcm.Gen.Tables
 import Rtcm.Pinned.Sizes
+import Rtcm.Lemmas.Decodable
 /-
   C10 — message layouts conform to the published standards and to each other.
   All statements are about the tables regenerated from the current source (`Gen.tables`).
@@ -106,5 +107,38 @@ theorem C10_igs_keys : T.igs.map (·.1) =
     ([1, 2, 3, 4, 5, 6].flatMap fun c => [1, 2, 3, 4, 5, 6, 7].map fun l => (⟨4076, some (20 * c + l)⟩ : Ident))
       ++ [⟨4076, some 201⟩] := by
   decide +kernel
+
+/-! ### every identity that has a payload definition can be decoded -/
+
+/-- table hygiene: data-field ids are below the derived-attribute ids; the special fields exist and
+    are pairwise different -/
+theorem C10_hygiene : Hyg T := hyg_of_B T (by decide +kernel)
+
+/-- every definition passes the static decodability check (an abstract run of the recursive walk:
+    counters and conditions are integer attributes set earlier at the right nesting level, label
+    fields sit in groups driven by NSat / NCell after the cell mask, mask fields are at top level in
+    the order 394, 395, 396, signed fields have a width, no malformed node) -/
+theorem C10_all_checked : ∀ e ∈ allDefs, ckDef T e.1 e.2 = true := by decide +kernel
+
+/-- **Decoding fails only when the payload is too short**: for every defined identity, every
+    payload bit string and label option, the recursive walk either succeeds or stops at a field
+    that extends past the end of the payload — never at an undefined field, a missing counter or
+    condition attribute, a non-integer count, a missing or too-short label map, a bad group index
+    or a type clash. -/
+theorem C10_decoding_fails_only_when_short (e : Ident × List Item) (he : e ∈ allDefs)
+    (p : Payload) (label : Nat) (err : DecErr)
+    (h : decItems ⟨T, p, e.1, label⟩ e.2 [] DState.init = .error err) : err = .short :=
+  ck_sound T C10_hygiene e.1 label p e.2 (C10_all_checked e he) err h
+
+/-- all-zero payload bits of the maximum frame size -/
+def zeroPayload : Payload := ⟨0, 8 * 1023⟩
+
+def decodesZero (e : Ident × List Item) : Bool :=
+  match decItems ⟨T, zeroPayload, e.1, 1⟩ e.2 [] DState.init with
+  | .ok _ => true
+  | .error _ => false
+
+/-- and every definition does decode something: the all-zero maximum-size payload -/
+theorem C10_every_definition_decodes : ∀ e ∈ allDefs, decodesZero e = true := by decide +kernel
 
 end Rtcm
